@@ -111,9 +111,13 @@ def judge(scn, obs, world):
         # message is limited, but it must not bounce anybody twice nor
         # start a bounce loop
         world.probe('storage-fault-while-settling')
+        # (a failing remove() comes after the bounces have been handed
+        # over on every path: there a missing bounce still counts)
+        only_remove = all(o == 'remove' for o, n in scn['store_faults'])
         v = [x for x in v if x['clause'] == 'C13/loop' or (
-            x['clause'] == 'C13/count' and
-            x['detail'].get('kind') == 'recipient-bounced-twice')]
+            x['clause'] == 'C13/count' and (
+                x['detail'].get('kind') == 'recipient-bounced-twice' or
+                (only_remove and x['detail'].get('kind') == 'missing')))]
         for x in v:
             x['detail']['storage_fault'] = True
     return v
